@@ -1,12 +1,22 @@
 """Per-property configuration of `check`: non-triviality rule, distribution classes,
-observable, trusted base."""
+observable (a_P), Spec comparison, trusted base."""
+import re
 
 COMMON_TB = [
     "Lean 4.33.0 kernel (thorough tier: leanchecker re-check of the property module)",
     "axioms per theorem restricted to propext, Classical.choice, Quot.sound (audited by #print axioms on every run); no sorry/admit/axiom/native_decide/bv_decide",
-    "hand-written Lean model of the Rust code: tied to /repo's working tree on every run by the differential correspondence check (Rust harness in-process vs compiled Lean driver on the same request lines) and by the regenerated constants tie",
+    "hand-written Lean model of the Rust code (lean/DltVerif/Model): tied to /repo's working tree on every run by the differential correspondence check (Rust harness in-process vs compiled Lean driver on the same request lines) and by the regenerated constants tie",
     "Lean compiler (the driver executes the compiled definitions the theorems are about), the Rust harness and its canonical printer, the check script",
+    "library code modelled by contract, not verified: nom 7.1.3 streaming primitives (modelled from source), memchr memmem, byteorder, bytes, std str::from_utf8",
 ]
+COMMON_ASSUME = [
+    "lengths, offsets and counters are Nat (no usize overflow, no allocation failure)",
+    "log macros evaluate no arguments (no logger installed, as in the test-suite)",
+]
+
+
+def hexlen(tok):
+    return (len(tok) - 1) // 2
 
 
 class Cfg:
@@ -14,22 +24,178 @@ class Cfg:
     observable = "the full answer line"
     exhaustive = False
     explanation = ""
-    assumptions = []
+    assumptions = COMMON_ASSUME
     trusted_base = COMMON_TB
 
-    def nontrivial(self, req, ans):
+    def nontrivial(self, req, ans, m=None):
         return True
 
-    def classify(self, req, ans):
+    def classify(self, req, ans, m=None):
         return req.split(" ", 1)[0] + ":" + ans.split(" ", 1)[0]
 
-    def project(self, ans):
-        """projection of the implementation's answer compared with the Spec's answer"""
-        return ans
+    def spec_ok(self, req, ans, spec):
+        """does the implementation's answer meet what the Spec expects (ORACLE via Spec)"""
+        return True
 
     def project_corr(self, ans):
         """projection compared between implementation and model (a_P)"""
         return ans
+
+
+class C01(Cfg):
+    rule = ("RT <message> <suffix>: type-directed well-formed messages (every payload kind incl. network trace, both byte "
+            "orders, all argument kinds x widths x VARI/TRAI/SCOD, ids of 0..4 bytes with multi-byte scalars, all header "
+            "flag sets, storage header on/off, boundary lengths up to 65535) x suffixes (empty, random, another message, "
+            "storage pattern); non-trivial = payload or suffix non-empty; distinct by request")
+    observable = "(round trip holds?, parse result, remainder length, remainder == suffix)"
+    explanation = ("C01_roundtrip proves parse(enc m ++ sfx) = (m, sfx) for every well-formed m and every sfx over the model; "
+                   "the run ties Message::as_bytes and dlt_message to the model and evaluates the round trip on the crate")
+
+    def nontrivial(self, req, ans, m=None):
+        toks = req.split()
+        return (m or {}).get("wf") == "1" and (hexlen(toks[-1]) > 0 or " V 0" not in req)
+
+    def classify(self, req, ans, m=None):
+        kind = "?"
+        for k, name in ((" V ", "verbose"), (" N ", "nonverbose"), (" C ", "control"), (" T ", "nwtrace")):
+            if k in req:
+                kind = name
+                break
+        st = "storage" if req.startswith("RT +") else "nostorage"
+        return "RT:%s:%s:%s:wf=%s" % (kind, st, ans.split(" ", 1)[0], (m or {}).get("wf", "?"))
+
+
+class C03(Cfg):
+    rule = ("NOPANIC/CONSUME/SKIPSH/FWD/ZTS requests over the malformed decode stream (canonical encodings, structured "
+            "mutations of every length field, truncations, splices, noise, >64 KiB, guard-targeted lengths for all 32 flag "
+            "sets, 65535-byte names) x storage mode x filter; non-trivial = input of at least 4 bytes; distinct by request")
+    observable = "(outcome class incl. PANIC, re-serialisable?, arguments valid?)"
+    explanation = ("C03 theorems: no model entry point takes the panic outcome and every returned message re-serialises "
+                   "without overflow; the run compares panic behaviour and outcome class with the crate under catch_unwind")
+
+    def nontrivial(self, req, ans, m=None):
+        return hexlen(req.split()[-1]) >= 4
+
+    def classify(self, req, ans, m=None):
+        return req.split(" ", 1)[0] + ":" + ans.split(" ", 1)[0]
+
+
+class C04(Cfg):
+    rule = ("CONS <storage> <filter> <bytes> / CONSUME <bytes>: decode stream weighted towards verbose messages whose "
+            "arguments are shorter / longer than the declared payload, junk in front in storage mode, filters; "
+            "non-trivial = the call returned Ok; distinct by request")
+    observable = "(Ok?, remainder length, kind item/filtered:n/invalid)"
+    explanation = ("C04_consume proves for all byte strings that an Ok result's remainder starts exactly at the declared "
+                   "end; the Spec oracle recomputes that position from HTYP and LEN alone (Spec.framing)")
+
+    def nontrivial(self, req, ans, m=None):
+        return ans.startswith("OK")
+
+    def classify(self, req, ans, m=None):
+        t = ans.split()
+        k = t[2].split(":")[0] if len(t) > 2 and t[0] == "OK" and t[2].startswith("kind=") else ""
+        return "%s:%s:%s" % (req.split(" ", 1)[0], t[0], k)
+
+    def spec_ok(self, req, ans, spec):
+        toks = req.split()
+        n = hexlen(toks[-1])
+        if toks[0] == "CONSUME":
+            if ans.startswith("OK none"):
+                return n == 0
+            if ans.startswith("OK some"):
+                m = re.match(r"OK some (\d+) rest=(\d+)", ans)
+                c, rest = int(m.group(1)), int(m.group(2))
+                return spec == "some %d rest=%d" % (c, rest) and c > 0 and c + rest == n
+            return True
+        if not ans.startswith("OK"):
+            return True
+        m = re.match(r"OK rest=(\d+) kind=(\S+)", ans)
+        rest, kind = int(m.group(1)), m.group(2)
+        ms = re.match(r"complete rest=(\d+) fl=(\d+)", spec)
+        if not ms:
+            return False
+        if rest != int(ms.group(1)) or rest >= n:
+            return False
+        if kind.startswith("filtered:") and int(kind.split(":")[1]) != int(ms.group(2)):
+            return False
+        return kind != "invalid"
+
+
+class C05(Cfg):
+    rule = ("CUTALL <message>: well-formed messages, EVERY cut position 0..len-1 of each (exhaustive per message), both "
+            "storage modes, parser and skipper; non-trivial = message longer than its headers; distinct by request")
+    observable = "(number of cut positions not reported incomplete with a hint in [1, missing])"
+    explanation = ("C05_prefix proves incompleteness with a safe hint for every proper prefix of every well-formed message; "
+                   "fine_agreement compares a hash of the exact hints of all cuts (not an alarm condition)")
+
+    def nontrivial(self, req, ans, m=None):
+        return " V 0" not in req
+
+    def classify(self, req, ans, m=None):
+        mm = re.match(r"len=(\d+) bad=(\d+)", ans)
+        if not mm:
+            return "CUTALL:" + ans.split(" ", 1)[0]
+        n = int(mm.group(1))
+        return "CUTALL:len<%d:bad=%s" % (50 * (n // 50 + 1), "0" if mm.group(2) == "0" else ">0")
+
+
+class C13(Cfg):
+    rule = ("NVA <order> <types> <payload>: every kind (and pair of kinds) x both byte orders x every truncation point "
+            "(exhaustive for lists of length 1 and 2), random lists of 0..8 types with exact, short, over-long and "
+            "corrupted payloads incl. invalid UTF-8 and fixed-point kinds; non-trivial = at least one type; distinct by request")
+    observable = "the constructed arguments (every field) or ERR or PANIC"
+    explanation = "C13_refines proves model = Spec.construct for all inputs; the run compares the crate with both"
+
+    def nontrivial(self, req, ans, m=None):
+        return req.split()[2] != "0"
+
+    def classify(self, req, ans, m=None):
+        return "NVA:n=%s:%s" % (req.split()[2], ans.split(" ", 1)[0])
+
+    def spec_ok(self, req, ans, spec):
+        return ans == spec
+
+
+class C14(Cfg):
+    rule = ("HTYP b / MSIN b for all 256 bytes each; TI w for ALL 2^18 low words (the decoder ignores bits 18..31) plus "
+            "random words with high bits set; non-trivial = the word decodes; distinct by request")
+    observable = "decoded fields and the re-encoded code"
+    exhaustive = True
+    explanation = ("C14_htyp / C14_msin: kernel-decided complete tables; C14_ti_*: all 2^32 words by case analysis; the run "
+                   "enumerates the full HTYP, MSIN and low-18-bit type-info spaces against the crate")
+
+    def nontrivial(self, req, ans, m=None):
+        return ans != "none"
+
+    def classify(self, req, ans, m=None):
+        op = req.split(" ", 1)[0]
+        if op == "TI":
+            return "TI:" + ("refused" if ans == "none" else "kind" + ans.split(" ", 1)[0])
+        return op
+
+
+class C15(Cfg):
+    rule = ("ARGLEN <argument> (well-formed arguments of every kind, both byte orders), NEW <config> (Message::new for "
+            "every payload kind, optional fields, extended header present/absent), ADDSH <message> <time>, VALID "
+            "<argument> (bool/float kinds with foreign values); non-trivial: all; distinct by request")
+    observable = "(len, serialised lengths, valid) / built message and its consistency flags / bytes with storage header"
+    explanation = "C15_len, C15_new, C15_storage, C15_valid over the model; oracle evaluated on the crate's own results"
+
+    def classify(self, req, ans, m=None):
+        return req.split(" ", 1)[0] + ":" + ("PANIC" if "PANIC" in ans else "ok")
+
+
+class C16(Cfg):
+    rule = ("STABLE <storage> <bytes>: the decode stream (canonical, dialect, mutated, spliced, noise); non-trivial = "
+            "a message was parsed and its re-serialisation has the declared length; distinct by request")
+    observable = "(message parsed?, re-serialised length == declared?, stable?)"
+    explanation = "C16_stable over the model for all byte strings; oracle evaluated on the crate"
+
+    def nontrivial(self, req, ans, m=None):
+        return ans.startswith("item lenmatch=1")
+
+    def classify(self, req, ans, m=None):
+        return "STABLE:" + ans.replace(" ", ":")
 
 
 class C17(Cfg):
@@ -41,13 +207,13 @@ class C17(Cfg):
                    "arithmetic; the correspondence run ties the model to DltTimeStamp::from_ms / from_us")
     assumptions = ["u64 inputs modelled as Nat (the theorems hold for all Nat, hence all u64)"]
 
-    def nontrivial(self, req, ans):
+    def nontrivial(self, req, ans, m=None):
         op, n = req.split()
         n = int(n)
         unit = 1000 if op == "FROMMS" else 1000000
         return n // unit < 2 ** 32 and n % unit != 0
 
-    def classify(self, req, ans):
+    def classify(self, req, ans, m=None):
         op, n = req.split()
         n = int(n)
         unit = 1000 if op == "FROMMS" else 1000000
@@ -55,7 +221,40 @@ class C17(Cfg):
         return "%s:%s:%s" % (op, dom, "panic" if ans.startswith("PANIC") else "value")
 
 
-REGISTRY = {"C17": C17}
+class C18(Cfg):
+    rule = ("REAL <argument>: every kind, every integer width, fixed-point data present/absent, quantizations incl. 0, "
+            "subnormals, NaN, +-inf, negatives, 2^k, offsets incl. negative/min/max, values around 2^53, 2^63, 2^64; "
+            "non-trivial = a real value is produced; distinct by request")
+    observable = "none | some <u64> | PANIC"
+    explanation = ("C18_sum / C18_none_unless / C18_trunc over the model; the IEEE product is an exact-integer executable "
+                   "model compared bit-for-bit with the hardware result through the crate on every case (partial: no "
+                   "theorem that F64.mul is IEEE multiplication)")
+    assumptions = ["the f64 product and the saturating cast are modelled with exact integer arithmetic (F64.mul, F64.toU64)"]
+
+    def nontrivial(self, req, ans, m=None):
+        return ans.startswith("some")
+
+    def classify(self, req, ans, m=None):
+        return "REAL:" + ans.split(" ", 1)[0]
+
+
+class C19(Cfg):
+    rule = ("ZTS <size> <bytes>: ALL strings of length <= 3 (quick) / <= 4 (thorough) over {00,'a',C3,A9,E2,82,AC,F0,9F,98,80,"
+            "C0,ED,A0,FF} x sizes 0..7 (exhaustive), random longer strings with sizes up to 65535; non-trivial = input "
+            "non-empty and size > 0; distinct by request")
+    observable = "(returned string bytes, remainder length) or (incomplete, hint)"
+    exhaustive = True
+    explanation = "C19_zts / C19_zts_short / C19_utf8 for all inputs; the run compares with dlt_zero_terminated_string (std from_utf8)"
+
+    def nontrivial(self, req, ans, m=None):
+        t = req.split()
+        return t[1] != "0" and hexlen(t[2]) > 0
+
+    def classify(self, req, ans, m=None):
+        return "ZTS:" + " ".join(ans.split()[:2])
+
+
+REGISTRY = {c.__name__: c for c in (C01, C03, C04, C05, C13, C14, C15, C16, C17, C18, C19)}
 
 
 def get(prop):
